@@ -155,6 +155,9 @@ def _native_table():
         "PythonIdentifier": lambda v, p, skip: str(utils.PythonIdentifier(v, p, skip_snake_case=skip)),
         "ClassName": lambda v, p: str(utils.ClassName(v, p)),
         "pascal_case": utils.pascal_case,
+        "kebab_case": utils.kebab_case,
+        "sanitize": utils.sanitize,
+        "fix_reserved_words": utils.fix_reserved_words,
         "snake_case": utils.snake_case,
         "remove_string_escapes": utils.remove_string_escapes,
         "canonical_rfc3339_date": canon(lambda s: isoparse(s).date(), lambda d: d.isoformat()),
